@@ -61,11 +61,17 @@ func c06Run(t *testing.T, ops []string, o *Out) {
 			curRTP   []byte
 			curRTCP  []byte
 		)
+		// every packet handed to the RTCP writer is the writer's (it may queue it): kept by pointer and re-rendered
+		// after every later op, before Close and after Close (retain_test.go)
+		defer o.EndKept()
 		defer func() {
+			o.CheckKeptAll()
 			if icpt != nil {
 				_ = icpt.Close()
+				synctest.Wait()
 			}
 		}()
+		nWritten := 0
 		inside := -1
 		var spendInside func()
 		ensure := func() {
@@ -86,6 +92,8 @@ func c06Run(t *testing.T, ops []string, o *Out) {
 				mu.Lock()
 				defer mu.Unlock()
 				for _, p := range pkts {
+					nWritten++
+					o.KeepRTCP(fmt.Sprintf("written#%d", nWritten), p)
 					if rr, ok := p.(*rtcp.ReceiverReport); ok {
 						for _, r := range rr.Reports {
 							pending = append(pending, c06Rec{at: time.Now(), rr: r, n: len(rr.Reports)})
@@ -158,6 +166,7 @@ func c06Run(t *testing.T, ops []string, o *Out) {
 			}
 		}
 		for i, op := range ops {
+			o.CheckKept()
 			name, m := kv(op)
 			need := func(keys ...string) bool {
 				for _, k := range keys {
